@@ -200,6 +200,11 @@ def s_add(a, b):
         if isinstance(a, LogV) and isinstance(b, LogV):
             if is_num(a.P) and num_val(a.P) == 0 or is_num(b.P) and num_val(b.P) == 0:
                 return LogV(z3.RealVal(0))
+            c = _cancel_common_denominator(a.P, b.P)
+            if c is None:
+                c = _cancel_common_denominator(b.P, a.P)
+            if c is not None:
+                return LogV(c)
             return LogV(a.P * b.P)
         l, r = (a, b) if isinstance(a, LogV) else (b, a)
         if is_num(r) and num_val(r) == 0:
@@ -218,7 +223,68 @@ def s_add(a, b):
         return b
     if is_num(b) and num_val(b) == 0:
         return a
+    if is_nonneg(a) and is_nonneg(b):
+        return mark_nonneg(a + b)
     return a + b
+
+
+_NONZERO_CACHE = {}
+_NONNEG = {}      # ids of z3 terms known to be >= 0 (values exp(.) of log-domain numbers and sums of those)
+
+
+def mark_nonneg(t):
+    if z3.is_expr(t):
+        _NONNEG[t.get_id()] = t
+    return t
+
+
+def is_nonneg(t):
+    if is_num(t):
+        return num_val(t) >= 0
+    return z3.is_expr(t) and t.get_id() in _NONNEG
+
+
+def _provably_nonzero(d):
+    """d != 0 for ALL values of its variables (no assumptions), decided by z3 with a short budget; cached"""
+    k = d.get_id()
+    if k not in _NONZERO_CACHE:
+        s = z3.Solver()
+        s.set("timeout", 2000)
+        s.add(d == 0)
+        _NONZERO_CACHE[k] = (str(s.check()) == "unsat", d)     # keep d alive so the id stays unique
+    return _NONZERO_CACHE[k][0]
+
+
+def _flatten_add(t, acc):
+    if z3.is_add(t):
+        for c in t.children():
+            _flatten_add(c, acc)
+    else:
+        acc.append(t)
+    return acc
+
+
+def _cancel_common_denominator(x, d):
+    """(sum_i n_i / d) * d  ->  sum_i n_i   when d is provably non-zero for all values.
+    This is the shape logsumexp produces in log-domain mode: log(sum exp(a_i - m)) + m with m the (finite-guarded)
+    maximum; the rewrite is an identity on the reals and removes the max-shift from the term the solver sees."""
+    if is_num(d):
+        return None
+    adds = _flatten_add(x, [])
+    nums = []
+    for t in adds:
+        if z3.is_div(t) and t.arg(1).eq(d):
+            nums.append(t.arg(0))
+        elif is_num(t) and num_val(t) == 0:
+            continue
+        else:
+            return None
+    if not nums or not _provably_nonzero(d):
+        return None
+    acc = nums[0]
+    for n in nums[1:]:
+        acc = acc + n
+    return acc
 
 
 def _as_log_const(v):
@@ -236,6 +302,8 @@ def _as_log_const(v):
 
 def s_neg(a):
     if isinstance(a, LogV):
+        if z3.is_div(a.P) and is_num(a.P.arg(0)) and num_val(a.P.arg(0)) == 1:
+            return LogV(a.P.arg(1))
         return LogV(1 / a.P)
     if is_num(a):
         v = -num_val(a)
@@ -274,6 +342,13 @@ def s_mul(a, b):
                 for _ in range(abs(n) - 1):
                     acc = acc * p
                 return LogV(acc if n > 0 else 1 / acc)
+        if z3.is_app_of(r, z3.Z3_OP_ITE) and is_num(r.arg(1)) and is_num(r.arg(2)) and \
+                {num_val(r.arg(1)), num_val(r.arg(2))} == {Fraction(0), Fraction(1)}:
+            # Log(P) * indicator (one-hot selection of a log-probability): stays in the log domain;
+            # indicator == 0 and P == 0 is 0 * -inf = NaN in floating point, recorded as a NaN condition
+            c = r.arg(0) if num_val(r.arg(1)) == 1 else z3.Not(r.arg(0))
+            NAN_CONDS.append(z3.And(l.P == 0, z3.Not(c)))
+            return LogV(z3.If(c, l.P, RV(1)))
         # (possibly -inf) * non-constant: 0 * -inf is NaN -- recorded as a NaN condition of the current evaluation
         NAN_CONDS.append(z3.And(l.P == 0, r == 0))
         return z3.If(l.P == 0, z3.FreshReal("nan"), l.term() * r)
@@ -364,7 +439,7 @@ def to_logv(t):
 
 def s_exp(a):
     if isinstance(a, LogV):
-        return a.P
+        return mark_nonneg(a.P)       # LogV invariant: P >= 0
     if is_app_of(a, "Log", 1):
         return a.arg(0)
     if z3.is_mul(a) and a.num_args() == 2:
@@ -623,7 +698,7 @@ RULES["real"] = lambda ctx, eqn, a: a
 RULES["reduce_precision"] = lambda ctx, eqn, a: a
 RULES["is_finite"] = ew(lambda a: (s_gt(a.P, RV(0)) if isinstance(a, LogV) else TRUE))
 RULES["square"] = ew(lambda a: s_mul(unlog(a), unlog(a)))
-RULES["abs"] = ew(lambda a: (lambda t: t if (is_num(t) and num_val(t) >= 0) else (s_neg(t) if is_num(t) else z3.If(t >= 0, t, -t)))(unlog(a)))
+RULES["abs"] = ew(lambda a: (lambda t: t if is_nonneg(t) else (s_neg(t) if is_num(t) else z3.If(t >= 0, t, -t)))(unlog(a)))
 RULES["sign"] = ew(lambda a: (lambda t, one, zero, m: z3.If(t > zero, one, z3.If(t < zero, m, zero)))(unlog(a), *( (IV(1), IV(0), IV(-1)) if z3.is_int(unlog(a)) else (RV(1), RV(0), RV(-1)))))
 def _floor(a):
     a = unlog(a)
